@@ -228,6 +228,8 @@ var c06multi = [][]string{
 	{"local M = {}\nM.f = \x01\nreturn M\n", "local M = {}\n\x02 = M\nreturn M\n", "q = \x03\n", "r = \x04\n"},
 	// the same global declared at the same line and column of two files, used in the others
 	{"\x01 = 1\n", "h = \x02\ni = \x02\n", "\x03 = 2\n", "m = \x04\n"},
+	// a use at the line and column at which another file declares the global
+	{"\x01 = {}\n", "\x02.y = 2\n", "print(\x03)\n", "\x04 = nil\n"},
 }
 
 func c06multiRun(src common.CheckReferenceSrc, tag, prefix string) {
